@@ -17,11 +17,19 @@ inductive Kind where
   | allIds | part | thres | idxd
   deriving DecidableEq, Repr, Inhabited
 
-/-- `IdList`: for `allIds` the id list is unused (kept `[]`). -/
+/-- `IdList`: for `allIds` the id list is unused (kept `[]`). `comp` is the representation of the
+`IDLBitRange` (`is_compressed()`): it never changes which ids are in the set, but
+`below_threshold` answers `true` for an *empty compressed* set whatever the threshold. -/
 structure IdList where
   kind : Kind
   ids : List Nat
+  comp : Bool
   deriving DecidableEq, Repr, Inhabited
+
+/-- `IDLBitRange::below_threshold` (idlset 0.2.5 `v2.rs` l.288): sparse = `len < t`; compressed =
+no prefix of ranges reaches `t` ids, which is also true for a compressed set without ranges. -/
+def belowThreshold (ids : List Nat) (comp : Bool) (t : Nat) : Bool :=
+  decide (ids.length < t) || (comp && ids.isEmpty)
 
 /-- `ia & ib` -/
 def interL (a b : List Nat) : List Nat := a.filter (fun x => b.contains x)
@@ -36,14 +44,17 @@ inductive SetOp where
   | inter | union | diff | diffRev | bound | none
   deriving DecidableEq, Repr, Inhabited
 
-def SetOp.apply (op : SetOp) (c i : IdList) : List Nat :=
+/-- The set an arm computes and its representation (idlset 0.2.5: `&` is compressed iff both
+operands are and the result is non-empty; `|` iff either operand is; `andnot` iff its left
+operand is; `IDLBitRange::new()` is sparse). -/
+def SetOp.apply (op : SetOp) (c i : IdList) : List Nat × Bool :=
   match op with
-  | .inter => interL c.ids i.ids
-  | .union => unionL c.ids i.ids
-  | .diff => diffL c.ids i.ids
-  | .diffRev => diffL i.ids c.ids
-  | .bound => if c.kind = .allIds then i.ids else c.ids
-  | .none => []
+  | .inter => (interL c.ids i.ids, c.comp && i.comp && !(interL c.ids i.ids).isEmpty)
+  | .union => (unionL c.ids i.ids, c.comp || i.comp)
+  | .diff => (diffL c.ids i.ids, c.comp)
+  | .diffRev => (diffL i.ids c.ids, i.comp)
+  | .bound => if c.kind = .allIds then (i.ids, i.comp) else (c.ids, c.comp)
+  | .none => ([], false)
 
 /-- One arm of a `match (cand_idl, inter)` table. -/
 structure Arm where
